@@ -20,7 +20,8 @@ type hashAlgo struct {
 	mk        func() hash.Hasher
 	ref       func([]byte) []byte
 	sumFinal  bool // SumHash finalizes: Reset is required before further writes (SHA-3 / Keccak)
-	compFinal bool // ComputeHash leaves a state that needs Reset (everything but KMAC)
+	compFinal bool // ComputeHash leaves a state that needs Reset (SHA-3 / Keccak)
+	compCont  bool // ComputeHash(x) is documented to leave the stream at x, open for further writing (SHA-2)
 	algo      hash.HashingAlgorithm
 	size      int
 }
@@ -30,18 +31,18 @@ var c13KmacCust = []byte("cust")
 
 func c13Algos() []hashAlgo {
 	return []hashAlgo{
-		{"SHA2_256", 64, hash.NewSHA2_256, sha2.SHA256, false, true, hash.SHA2_256, 32},
-		{"SHA2_384", 128, hash.NewSHA2_384, sha2.SHA384, false, true, hash.SHA2_384, 48},
-		{"SHA3_256", 136, hash.NewSHA3_256, keccak.SHA3_256, true, true, hash.SHA3_256, 32},
-		{"SHA3_384", 104, hash.NewSHA3_384, keccak.SHA3_384, true, true, hash.SHA3_384, 48},
-		{"Keccak_256", 136, hash.NewKeccak_256, keccak.Keccak256, true, true, hash.Keccak_256, 32},
+		{"SHA2_256", 64, hash.NewSHA2_256, sha2.SHA256, false, false, true, hash.SHA2_256, 32},
+		{"SHA2_384", 128, hash.NewSHA2_384, sha2.SHA384, false, false, true, hash.SHA2_384, 48},
+		{"SHA3_256", 136, hash.NewSHA3_256, keccak.SHA3_256, true, true, false, hash.SHA3_256, 32},
+		{"SHA3_384", 104, hash.NewSHA3_384, keccak.SHA3_384, true, true, false, hash.SHA3_384, 48},
+		{"Keccak_256", 136, hash.NewKeccak_256, keccak.Keccak256, true, true, false, hash.Keccak_256, 32},
 		{"KMAC128", 168, func() hash.Hasher {
 			h, err := hash.NewKMAC_128(c13KmacKey, c13KmacCust, 40)
 			if err != nil {
 				panic(err)
 			}
 			return h
-		}, func(m []byte) []byte { return keccak.KMAC128(c13KmacKey, c13KmacCust, m, 40) }, false, false, hash.KMAC128, 40},
+		}, func(m []byte) []byte { return keccak.KMAC128(c13KmacKey, c13KmacCust, m, 40) }, false, false, false, hash.KMAC128, 40},
 	}
 }
 
@@ -143,6 +144,17 @@ func TestC13_History(t *testing.T) {
 		if h.Algorithm() != a.algo || h.Size() != a.size {
 			g.Fatalf("%s: Algorithm()/Size() = %v/%d", a.name, h.Algorithm(), h.Size())
 		}
+		// outputs handed out earlier must not change when the object is used further (no aliasing of internal buffers)
+		type kept struct{ out, copyOf []byte }
+		var outs []kept
+		keep := func(o []byte) { outs = append(outs, kept{o, append([]byte{}, o...)}) }
+		checkKept := func(when string) {
+			for i, k := range outs {
+				if !bytes.Equal(k.out, k.copyOf) {
+					g.Fatalf("%s: digest #%d returned earlier changed %s: it was %x, the same slice now holds %x", a.name, i, when, k.copyOf, k.out)
+				}
+			}
+		}
 		var stream []byte  // bytes absorbed since the last reset
 		needReset := false // documentation requires Reset before anything but ComputeHash/Reset
 		steps := g.Int("steps", 1, 25)
@@ -187,6 +199,7 @@ func TestC13_History(t *testing.T) {
 				if a.sumFinal {
 					needReset = true
 				}
+				keep(got)
 				ops["sum"] = true
 			case 6: // Reset
 				h.Reset()
@@ -200,8 +213,13 @@ func TestC13_History(t *testing.T) {
 					g.Fatalf("%s: ComputeHash(%d bytes) on an object with %d absorbed bytes differs from the standard: got %x want %x", a.name, len(x), len(stream), []byte(got), want)
 				}
 				if a.compFinal {
-					needReset = true // continuation after ComputeHash is unspecified for SHA-2 / SHA-3
+					needReset = true // SHA-3 / Keccak: Reset is required before further use
 				}
+				if a.compCont {
+					// SHA-2: "updates the state ... does not reset the state to allow further writing": the stream is now x
+					stream = append(stream[:0], x...)
+				}
+				keep(got)
 				ops["compute"] = true
 			case 9: // one-shot helpers
 				x := g.Expand("hdata", g.Int("hlen", 0, 300))
@@ -224,6 +242,7 @@ func TestC13_History(t *testing.T) {
 				g.Fatalf("%s: final SumHash after %d absorbed bytes differs from the standard", a.name, len(stream))
 			}
 		}
+		checkKept("after the later operations on the hasher")
 		g.Class("algo:" + a.name)
 		if crossed {
 			g.Class("crossedBlockBoundary")
